@@ -159,6 +159,15 @@ def run_trace_job(pid, job, seed, tier, tag=""):
         return {"job": job["name"], "seed": seed, "findings": findings, "lines": 0, "cover": {}, "trace": trace, "gen": gen, "wall": time.time() - t0}
     for m in r["msgs"]:
         kind = {"DIVERGE": "diverge", "MONITOR-FAIL": "monitor", "GUARD-FAIL": "guard", "BAD-LINE": "bad"}[m.split(" ")[0]]
+        # a check only listens to its own property's monitors and to the model fields it depends on
+        if kind == "monitor":
+            pm = re.search(r"property=(C\d+)", m)
+            if pm and pm.group(1) != pid and pm.group(1) not in job.get("also_monitors", []):
+                continue
+        if kind == "diverge" and job.get("fields"):
+            fm = re.search(r"field=(\S+)", m)
+            if fm and not re.search(job["fields"], fm.group(1)):
+                continue
         lm = re.search(r"line=(\d+)", m)
         findings.append(Finding(kind, m, job["name"], trace, int(lm.group(1)) if lm else None, gen=gen))
     s = r["summary"]
